@@ -234,6 +234,7 @@ package ring
 //@ # all tokens of all partitions, ascending (slices.Sort: assumed sorted permutation)
 //@ func PartitionRingDesc.tokens
 //@   property C15 C14
+//@   option variant perm
 //@   ensures  sorted: sortedNS(result)
 //@   ensures  from_partitions: forall a int :: 0 <= a && a < len(result) ==> (exists p int32 :: in(p, m.Partitions) && tokOf(m.Partitions, p, result[a]))
 //@   ensures  all_tokens: forall p int32, j int :: in(p, m.Partitions) && 0 <= j && j < len(m.Partitions[p].Tokens) ==> (exists a int :: 0 <= a && a < len(result) && result[a] == m.Partitions[p].Tokens[j])
